@@ -4,6 +4,7 @@ import (
 	"fmt"
 	"sync"
 	"testing"
+	"time"
 
 	"github.com/kelindar/column"
 	"pgregory.net/rapid"
@@ -44,6 +45,12 @@ func TestC09Parallel(t *testing.T) {
 		if blocks == 2 {
 			rows = append(rows, 16384, 16391)
 		}
+		// every contended row has a deadline an hour away: txn.TTL().Extend is a merge as well
+		deadline0 := map[uint32]int64{}
+		for _, row := range rows {
+			c.QueryAt(row, func(r column.Row) error { r.SetTTL(time.Hour); return nil })
+			c.QueryAt(row, func(r column.Row) error { deadline0[row], _ = r.Int64("expire"); return nil })
+		}
 		// per worker, per txn: row, column, delta (small integers: float sums stay exact)
 		type op struct {
 			Row   uint32
@@ -55,7 +62,7 @@ func TestC09Parallel(t *testing.T) {
 		total := map[[2]int]int64{}
 		for w := range progs {
 			for i := 0; i < txns; i++ {
-				o := op{Row: rows[rapid.IntRange(0, len(rows)-1).Draw(t, "row")], Col: 1 + rapid.IntRange(0, len(numeric)).Draw(t, "col"), Delta: rapid.IntRange(1, 5).Draw(t, "delta")}
+				o := op{Row: rows[rapid.IntRange(0, len(rows)-1).Draw(t, "row")], Col: max(0, rapid.IntRange(-1, len(numeric)+1).Draw(t, "col")), Delta: rapid.IntRange(1, 5).Draw(t, "delta")}
 				o.Abort = rapid.IntRange(0, 9).Draw(t, "abort") == 0
 				progs[w] = append(progs[w], o)
 				if !o.Abort {
@@ -100,6 +107,19 @@ func TestC09Parallel(t *testing.T) {
 			go func(w int) {
 				defer wwg.Done()
 				for _, o := range progs[w] {
+					if o.Col == 0 {
+						// the time-to-live accessor: Extend merges a duration into the deadline
+						c.Query(func(txn *column.Txn) error {
+							return txn.QueryAt(o.Row, func(column.Row) error {
+								txn.TTL().Extend(time.Duration(o.Delta) * time.Minute)
+								if o.Abort {
+									return errRollback
+								}
+								return nil
+							})
+						})
+						continue
+					}
 					c.QueryAt(o.Row, func(r column.Row) error {
 						cs := sch.Cols[o.Col]
 						var v Value
@@ -143,6 +163,15 @@ func TestC09Parallel(t *testing.T) {
 				t.Fatalf("reading row %d: %v", row, err)
 			}
 			cs := sch.Cols[col]
+			if col == 0 {
+				want := deadline0[row] + sum*int64(time.Minute)
+				if !got[0].Has || int64(got[0].V.B) != want {
+					t.Fatalf("C09 violated (free-parallel run): row %d: %d workers extended its time-to-live by %d minute(s) in total with txn.TTL().Extend; the deadline moved by %s (an extension was lost or applied twice)",
+						row, workers, sum, time.Duration(int64(got[0].V.B)-deadline0[row]))
+				}
+				contended++
+				continue
+			}
 			if col == recCol {
 				wantRec := recBytes(uint32(sum), "")
 				if !got[col].Has || got[col].V.S != wantRec {
